@@ -50,7 +50,9 @@ def ensure_built(verbose=False):
             if rc != 0:
                 raise BuildError("coq_makefile failed:\n" + out)
         log = os.path.join(WORK, "coq_make.log")
-        rc, out = sh("timeout 3000 make -k -j16", cwd=COQ)
+        # every file under its own time limit: a proof that no longer goes through can make coqc
+        # evaluate a large term instead of failing (normal: < 40 s per file)
+        rc, out = sh("timeout 3000 make -k -j16 COQC='timeout 300 coqc'", cwd=COQ)
         open(log, "w").write(out)
         failed = []
         if rc != 0:
